@@ -46,6 +46,10 @@ pub enum Op {
     /// inside a nested scope that holds a stack of its own (one marker population): `get_multiple_mut::<(Random,
     /// Populations)>()` - the generator lives outside - reaches the inner stack; the outer one is untouched
     ShadowedAccess(u8),
+    /// inside 1-3 nested scopes the stack is taken out with `State::holding`, edited (an individual pushed to the current
+    /// population / a new population pushed) and the closure then FAILS: the error is reported, the edited stack is
+    /// back in the scope it came from
+    ScopedHoldFail(u8, Ind),
     CompClear,
     CompDuplicate,
     CompInterleave,
@@ -138,6 +142,14 @@ fn probe(state: &State<RealP>, model: &[Pop], step: usize, op: &Op) -> Result<()
             (Err(p), true) => fail!("C04 peek panics within height", "step {step} {op:?}: peek({d}) panicked at height {h}: {p}"),
         }
     }
+    // the lens on the size of the current population (used by conditions and log entries) reads the TOP population
+    if h > 0 {
+        use mahf::lens::Lens;
+        static P: std::sync::OnceLock<RealP> = std::sync::OnceLock::new();
+        let problem = P.get_or_init(|| RealP::new(1, -1.0, 1.0, RealKind::Tag));
+        let got = mahf::lens::common::PopulationSizeLens::<RealP>::new().get(problem, state).ok();
+        ensure_that!(got == Some(model[h - 1].len() as u32), "C04 population-size lens", "step {step} {op:?}: PopulationSizeLens reads {got:?}, the current (top) population holds {} individuals (stack heights bottom..top: {:?})", model[h - 1].len(), model.iter().map(|p| p.len()).collect::<Vec<_>>());
+    }
     let r = catch(|| {
         let ps = state.populations();
         ps.current().iter().map(view).collect::<Vec<_>>()
@@ -160,7 +172,7 @@ impl Check for StackCheck {
         NAME.into()
     }
     fn classes(&self) -> &'static [&'static str] {
-        &["height>=3", "rotate 2<=n<=height", "rotate n==height", "pop on empty", "component op", "edit in place", "split with tie", "component executed inside nested scopes", "stack edited from inside nested scopes (accessor / multiple lookup / entry API)", "scope with a stack of its own"]
+        &["height>=3", "rotate 2<=n<=height", "rotate n==height", "pop on empty", "component op", "edit in place", "split with tie", "component executed inside nested scopes", "stack edited from inside nested scopes (accessor / multiple lookup / entry API)", "scope with a stack of its own", "stack held from inside nested scopes by a closure that fails"]
     }
     fn oracle(&self, ops: &Vec<Op>) -> Outcome {
         let mut classes = 0u64;
@@ -218,6 +230,37 @@ fn run(ops: &[Op], classes: &mut u64) -> Result<(), crate::engine::Failure> {
                 }
                 let r = catch(|| go(&mut state, depth, how, i));
                 ensure_that!(matches!(r, Ok(Ok(()))), "C04 stack access inside nested scopes fails", "step {step} {op:?}: {r:?}");
+                if h == 0 {
+                    model.push(vec![*i]);
+                } else {
+                    model[h - 1].push(*i);
+                }
+            }
+            Op::ScopedHoldFail(depth, i) => {
+                *classes |= 1 << 10;
+                let depth = 1 + depth % 3;
+                fn go(st: &mut State<RealP>, depth: u8, i: &Ind) -> mahf::ExecResult<()> {
+                    if depth > 0 {
+                        // the scope's own clean-up must not hide where the stack went: handle the error inside
+                        let mut seen = None;
+                        st.with_inner_state(|inner| {
+                            seen = Some(go(inner, depth - 1, i));
+                            Ok(())
+                        })?;
+                        return seen.unwrap_or(Ok(()));
+                    }
+                    st.holding::<Populations<RealP>>(|ps, _rest| {
+                        if ps.is_empty() {
+                            ps.push(vec![ind(i)]);
+                        } else {
+                            ps.current_mut().push(ind(i));
+                        }
+                        Err(eyre::eyre!("injected failure while the stack is held"))
+                    })
+                }
+                let r = catch(|| go(&mut state, depth, i));
+                ensure_that!(matches!(r, Ok(Err(_))), "C04 holding swallows the closure's error", "step {step} {op:?}: {:?}", r.map(|x| x.is_ok()));
+                ensure_that!(state.try_borrow::<Populations<RealP>>().is_ok() && state.contains_at_top::<Populations<RealP>>(), "C04 component loses the population stack", "step {step} {op:?}: after a failed closure the population stack is not back in the scope it was taken from");
                 if h == 0 {
                     model.push(vec![*i]);
                 } else {
@@ -580,6 +623,7 @@ fn op_strategy() -> impl Strategy<Value = Op> {
         2 => (0u8..3).prop_map(Op::Nest),
         2 => (0u8..3, 0u8..3, ind_strategy()).prop_map(|(d, h, i)| Op::ScopedEdit(d, h, i)),
         1 => (0u8..2).prop_map(Op::ShadowedAccess),
+        1 => (0u8..3, ind_strategy()).prop_map(|(d, i)| Op::ScopedHoldFail(d, i)),
         1 => Just(Op::CompClear),
         1 => Just(Op::CompDuplicate),
         1 => Just(Op::CompInterleave),
